@@ -157,6 +157,18 @@ class Tree:
                 return await tree.run_steps(path, "run", node["run"])
 
             ns["run"] = run
+        if node.get("awaitable_methods"):
+            # prepare() / start() are plain functions that return an awaitable OBJECT (not a coroutine): still awaited by the framework
+            class _AwObj:
+                def __init__(self, coro: Any) -> None:
+                    self.coro = coro
+
+                def __await__(self) -> Any:
+                    return self.coro.__await__()
+
+            for meth in ("prepare", "start"):
+                if meth in ns and not node.get("gen_start"):
+                    ns[meth] = (lambda inner: (lambda self: _AwObj(inner(self))))(ns[meth])
         name = "Comp_" + (path.replace(".", "_").replace("/", "__") or "root")
         if node.get("inherit"):
             # the methods live on an intermediate user base class; the concrete class adds nothing
@@ -261,6 +273,13 @@ class Tree:
                         def fcb(make=make) -> Any:  # type: ignore[misc]
                             return make()
                     types = [RA, RB] if tname == "RAB" else RT[tname]
+                    if fkind == "private":
+                        # registered in a private sub-context of the component (and used there): nobody else may notice
+                        async with ac.Context():
+                            ac.add_resource_factory(fcb, name, types=types)
+                            ac.get_resource_nowait(RT[tname], name)
+                            env.log("addedf-private", path, phase, tname, name, label)
+                        continue
                     ac.add_resource_factory(fcb, name, types=types)
                     env.log("addedf", path, phase, tname, name, label)
                 elif k == "get":
@@ -290,6 +309,53 @@ class Tree:
                             continue
                         raise
                     env.log("get-", tag, lab(r), env.env_events - ev0)
+                elif k == "nested-pub":
+                    # the component starts a sub-tree of its own whose leaf publishes a resource in start()
+                    _, tname, rname, label = st[:4]
+
+                    class PubLeaf(ac.Component):
+                        async def start(self2) -> None:
+                            v = RT[tname](label)
+                            self.values[label] = v
+                            ac.add_resource(v, rname, RT[tname])
+                            env.log("added", path + ">leaf", "start", tname, rname, label)
+
+                    class PubRoot(ac.Component):
+                        def __init__(self2) -> None:
+                            self2.add_component("leaf", PubLeaf)
+
+                    await ac.start_component(PubRoot, {}, timeout=None)
+                elif k == "stall-aclose":
+                    # the component is suspended inside `await agen.aclose()` (an async generator finishing its clean-up)
+                    async def agen() -> Any:
+                        try:
+                            yield 1
+                        finally:
+                            await env.gate(f"{path}:{phase}:aclose")
+
+                    g = agen()
+                    await g.asend(None)
+                    await g.aclose()
+                elif k == "fac-hs":
+                    # the component is suspended in TaskFactory.start_task() waiting for the task's task_status.started()
+                    label = st[1]
+                    factory = await ac.start_background_task_factory()
+
+                    async def hs_task(*, task_status: Any) -> None:
+                        env.log("svc+", label)
+                        try:
+                            await env.gate(f"svc:{label}:handshake")
+                            task_status.started()
+                            env.log("svc-up", label)
+                            await anyio.Event().wait()
+                        except BaseException as e:
+                            env.log("svc!", label, type(e).__name__)
+                            raise
+                        finally:
+                            env.log("svc-", label)
+
+                    await factory.start_task(hs_task, label.replace(":", "_").replace(".", "_"))
+                    env.log("svc-started", label)
                 elif k == "nested-tree":
                     # the component starts a sub-tree of its own from inside its method; st[1] says whether that sub-tree fails
                     class InnerLeaf(ac.Component):
